@@ -69,6 +69,9 @@ pub struct Point {
     pub is_choice: bool,
     pub op: Op,
     pub loc: Option<Loc>,
+    /// threads among `enabled` whose blocking wait (park, condvar wait inside the subject) can only
+    /// return *spuriously* here; choosing one costs a deviation, the default policy never does
+    pub spurious: u32,
 }
 
 impl Point {
@@ -80,6 +83,20 @@ impl Point {
     }
     pub fn is_preemption(&self) -> bool {
         !self.is_choice && self.cur_enabled && self.chosen != self.current
+    }
+    pub fn is_spurious(&self) -> bool {
+        !self.is_choice && self.spurious & (1u32 << self.chosen) != 0
+    }
+    /// departures from the default policy this decision stands for (preemption, spurious wake-up)
+    pub fn deviations(&self) -> usize {
+        self.is_preemption() as usize + self.is_spurious() as usize
+    }
+    /// what choosing `alt` here instead would cost
+    pub fn cost_of(&self, alt: u8) -> usize {
+        if self.is_choice {
+            return 0;
+        }
+        (self.cur_enabled && alt != self.current) as usize + (self.spurious & (1u32 << alt) != 0) as usize
     }
 }
 
@@ -144,6 +161,8 @@ pub(crate) struct Inner {
     pub new_try_sites: Vec<(&'static str, u32)>,
     pub lazies: Vec<(usize, unsafe fn(usize))>,
     pub events: u64,
+    /// spurious wake-ups (of `park` / `Condvar::wait` calls made by the subject) still allowed in this execution
+    pub spurious_left: u32,
 }
 
 pub struct Rt {
@@ -299,8 +318,21 @@ impl Inner {
         }
     }
 
-    fn enabled_mask(&self) -> u32 {
+    /// a blocking wait of the subject that std allows to return spuriously
+    fn op_spurious(&self, t: usize, op: Op) -> bool {
+        let in_subject = self.threads[t].pending_loc.map(|l| l.file().starts_with("/repo/")).unwrap_or(false);
+        in_subject
+            && match op {
+                Op::Park => !self.threads[t].park_token,
+                Op::CvReacquire(_, m) => !self.threads[t].cv_notified && self.mutexes[m as usize].is_none(),
+                _ => false,
+            }
+    }
+
+    /// (threads whose pending operation is enabled, threads that could only continue through a spurious wake-up)
+    fn enabled_mask(&self) -> (u32, u32) {
         let mut e = 0u32;
+        let mut sp = 0u32;
         let mut quiescers = 0u32;
         for (t, th) in self.threads.iter().enumerate() {
             if th.finished {
@@ -311,13 +343,15 @@ impl Inner {
                     quiescers |= 1 << t;
                 } else if self.op_enabled(t, op) {
                     e |= 1 << t;
+                } else if self.spurious_left > 0 && self.op_spurious(t, op) {
+                    sp |= 1 << t;
                 }
             }
         }
         if e == 0 {
-            quiescers
+            (quiescers, if quiescers != 0 { sp } else { 0 })
         } else {
-            e
+            (e, sp)
         }
     }
 
@@ -338,7 +372,8 @@ impl Inner {
 
     /// Takes a decision among `options` (bit mask).  `sched`: this is a scheduling decision for
     /// thread `me`.  Returns None if the execution is over.
-    fn decide(&mut self, me: usize, options: u32, is_choice: bool, op_of: impl Fn(&Inner, usize) -> (Op, Option<Loc>)) -> Option<usize> {
+    fn decide(&mut self, me: usize, enabled: u32, spurious: u32, is_choice: bool, op_of: impl Fn(&Inner, usize) -> (Op, Option<Loc>)) -> Option<usize> {
+        let options = enabled | spurious;
         let step = self.trace.len();
         if step >= self.max_steps {
             // livelock classification: was a single thread the only enabled one for the last 1000 steps?
@@ -351,7 +386,7 @@ impl Inner {
             ));
             return None;
         }
-        let cur_enabled = !is_choice && options & (1 << me) != 0;
+        let cur_enabled = !is_choice && enabled & (1 << me) != 0;
         let chosen = if step < self.prefix.len() {
             let c = self.prefix[step] as usize;
             if c >= 32 || options & (1 << c) == 0 {
@@ -362,10 +397,10 @@ impl Inner {
         } else if cur_enabled {
             me
         } else {
-            options.trailing_zeros() as usize
+            enabled.trailing_zeros() as usize
         };
         let (op, loc) = op_of(self, chosen);
-        self.trace.push(Point { enabled: options, chosen: chosen as u8, current: me as u8, cur_enabled, is_choice, op, loc });
+        self.trace.push(Point { enabled: options, chosen: chosen as u8, current: me as u8, cur_enabled, is_choice, op, loc, spurious });
         Some(chosen)
     }
 
@@ -374,7 +409,7 @@ impl Inner {
         if self.failure.is_some() {
             return None;
         }
-        let enabled = self.enabled_mask();
+        let (enabled, spurious) = self.enabled_mask();
         if enabled == 0 {
             if self.threads.iter().all(|t| t.finished) {
                 self.done = true;
@@ -383,9 +418,21 @@ impl Inner {
             }
             return None;
         }
-        let chosen = self.decide(me, enabled, false, |g, c| (g.threads[c].pending.unwrap(), g.threads[c].pending_loc))?;
+        let chosen = self.decide(me, enabled, spurious, false, |g, c| (g.threads[c].pending.unwrap(), g.threads[c].pending_loc))?;
         self.current = chosen;
         let op = self.threads[chosen].pending.unwrap();
+        if spurious & (1 << chosen) != 0 {
+            // the wait returns although nobody woke it
+            self.spurious_left -= 1;
+            match op {
+                Op::Park => self.threads[chosen].park_token = true,
+                Op::CvReacquire(cv, _) => {
+                    self.threads[chosen].cv_notified = true;
+                    self.condvars[cv as usize].retain(|&w| w != chosen);
+                }
+                _ => unreachable!(),
+            }
+        }
         if op.is_blocking_wait() {
             self.threads[chosen].blocking_waits += 1;
         }
@@ -400,7 +447,7 @@ impl Inner {
         if options.count_ones() == 1 {
             return options.trailing_zeros() as usize;
         }
-        match self.decide(me, options, true, |_, _| (Op::Choice, None)) {
+        match self.decide(me, options, 0, true, |_, _| (Op::Choice, None)) {
             Some(c) => c,
             None => options.trailing_zeros() as usize,
         }
@@ -587,6 +634,8 @@ pub struct ExecConfig {
     pub max_steps: usize,
     pub elide_unlock: bool,
     pub try_sites: Vec<(String, u32)>,
+    /// number of spurious wake-ups of the subject's `park` / `Condvar::wait` calls the strategy may inject
+    pub spurious: u32,
 }
 
 fn install_hook() {
@@ -650,6 +699,7 @@ pub fn run_execution<F: FnOnce() + Send + 'static>(prefix: &[u8], cfg: &ExecConf
             new_try_sites: vec![],
             lazies: vec![],
             events: 0,
+            spurious_left: cfg.spurious,
         }),
         done_cv: StdCondvar::new(),
         exec_id: EXEC_COUNTER.fetch_add(1, Ordering::Relaxed),
@@ -728,6 +778,6 @@ pub fn describe_point(i: usize, p: &Point) -> String {
         p.op,
         short_loc(p.loc),
         p.options().collect::<Vec<_>>(),
-        if p.is_preemption() { "  <-- PREEMPT" } else if p.is_choice { "  (choice)" } else { "" }
+        if p.is_spurious() { "  <-- SPURIOUS WAKE-UP" } else if p.is_preemption() { "  <-- PREEMPT" } else if p.is_choice { "  (choice)" } else { "" }
     )
 }
